@@ -280,6 +280,75 @@ class Prop(object):
             if res == "violation" and not self._bad:
                 self._bad = {"kind": "framework", "program": c21.show_stmts(stmts), "bits": "".join("1" if b else "0" for b in bits), "why": why}
         ctx.diff("sd deserialise RANDOM bit strings with random programs (values completed by 1-bits past the end of bounded blocks): model == real Deserialiser", dl, de)
+        # bitstream/vc2.py itself, one run at a time: the serdes calls it makes while deserialising a stream are folded
+        # into a static program of the model (harness/vc2trace.py); the model must deserialise the same bits to the
+        # same description, and re-serialising must make vc2.py issue exactly the same calls
+        import vc2trace as T
+        import codecgen as G
+
+        trng = ctx.rng("c06trace")
+        seeds = seed_streams()
+        streams = [d for d, _ in seeds]
+        for _ in range(ctx.n(40, 600)):
+            cf = G.rand_config(trng)
+            try:
+                streams.append(G.encode(cf, G.rand_pictures(trng, cf, n=trng.choice([1, 2])))[0])
+            except Exception:  # noqa  - configurations the encoder rejects
+                continue
+        for _ in range(ctx.n(150, 3000)):
+            data, flat = trng.choice(seeds)
+            streams.append(mutate(trng, data, flat))
+        tl, te = [], []
+        for data in streams:
+            if len(data) > 6000:
+                ctx.count("trace:too-big")
+                continue
+            signal.signal(signal.SIGALRM, _alarm)
+            signal.alarm(3)
+            try:
+                dctx, ev = T.deserialise_traced(data)
+            except Timeout:
+                ctx.count("trace:too-big")
+                continue
+            except Exception:  # noqa  - not parseable to completion: outside the property
+                ctx.count("trace:unparseable")
+                continue
+            finally:
+                signal.alarm(0)
+            if len(ev) > 20000:
+                ctx.count("trace:too-big")
+                continue
+            try:
+                prog = T.trace_to_program(ev)
+            except T.Untranslatable as e:
+                ctx.count("trace:untranslatable:%s" % e)
+                continue
+            ctx.count("trace:ok")
+            ctx.evaluations += 1
+            tl.append("sd D %s :: %s" % (" ".join(c21.show_stmts(prog)), T.bits_of(data)))
+            te.append("OK %s| 0" % T.canon(dctx)[2:-1])
+            # ... and the other direction: the model serialises the real description with that program to the real bytes
+            tl.append("sd S %s :: %s" % (" ".join(c21.show_stmts(prog)), T.canon(dctx)[2:-1]))
+            te.append("OK %s | %s" % (T.bits_of(data), T.canon(dctx)[2:-1]))
+            signal.alarm(10)
+            try:
+                out, ev2 = T.serialise_traced(dctx)
+            except Timeout:
+                ctx.count("trace:too-big")
+                continue
+            except Exception as e:  # noqa
+                if not self._bad:
+                    self._bad = {"kind": "bytes", "bytes": data.hex(), "why": "re-serialising the deserialised description raised %s" % type(e).__name__}
+                continue
+            finally:
+                signal.alarm(0)
+            if ev2 != ev and not self._bad:
+                i = next((k for k, (a, b) in enumerate(zip(ev, ev2)) if a != b), min(len(ev), len(ev2)))
+                self._bad = {"kind": "bytes", "bytes": data.hex(),
+                             "why": "bitstream/vc2.py makes different serdes calls when serialising what it deserialised (call %d: %s vs %s)" % (
+                                 i, ev[i] if i < len(ev) else None, ev2[i] if i < len(ev2) else None)}
+        ctx.diff("sd D/S programs TRACED from bitstream/vc2.py on real streams (encoder output, seeds, mutants): model description == real Deserialiser's, "
+                 "model bits == the stream; the Serialiser replays the same calls", tl, te)
         # byte-level round trip on the real code
         ctx.corr_names.append("REAL deserialise -> serialise -> compare bytes -> re-deserialise on conformant streams and their mutations")
         seeds = seed_streams()
